@@ -146,9 +146,12 @@ def firstBad (cfg : Cfg) : List Handler → Option (Handler × String × Shape)
     | some p => some (h, p)
     | none => firstBad cfg hs
 
-/-- all finding ids `C26-<rpc>-<shape tag>` (for reporting; soundness uses `firstBad`) -/
+/-- all finding ids `C26-<rpc>-<shape tag>` (for reporting; soundness uses `firstBad`).  A handler that
+    fails already on the ordinary request (a leaked lock, a nil success response) gets the single id
+    `C26-<rpc>-everyrequest` instead of one id per shape. -/
 def findingIds (cfg : Cfg) : List String :=
   (cfg.handlers.flatMap fun h =>
-    (candShapes.filter (fun p => violatesB cfg h p.2)).map (fun p => "C26-" ++ h.name ++ "-" ++ p.1)).eraseDups
+    if violatesB cfg h { top := good, entries := [good] } then ["C26-" ++ h.name ++ "-everyrequest"]
+    else (candShapes.filter (fun p => violatesB cfg h p.2)).map (fun p => "C26-" ++ h.name ++ "-" ++ p.1)).eraseDups
 
 end Hv.Request
